@@ -11,3 +11,8 @@ open LhasaV.Props.C06
 #print axioms macbinary_strip
 #print axioms macbinary_keep
 #print axioms mac_header_spec
+#print axioms LhasaV.Props.C06.run_tree_partial
+#print axioms LhasaV.Props.C06.dir_meta_final
+#print axioms LhasaV.Props.C06.access_regimes
+#print axioms LhasaV.Props.C06.sample_tree_extracts
+#print axioms LhasaV.Props.C06.dir_entry_for_existing_dir_ignored
